@@ -6,12 +6,12 @@ import torch
 from replay.transforms import _eq, perturb
 
 
-def _base(n=4, shape=(3, 12, 12)):
+def _base(n=4, shape=(3, 12, 12), collators=None):
     from kappadata.datasets.kd_dataset import KDDataset
 
     class D(KDDataset):
         def __init__(self):
-            super().__init__()
+            super().__init__(collators=collators)
             g = torch.Generator().manual_seed(7)
             self.x = [torch.rand(*shape, generator=g) for _ in range(n)]       # in-memory: hands out its own tensors
             self.sem = [torch.randint(0, 3, (1,) + shape[1:], generator=g).float() for _ in range(n)]
@@ -118,6 +118,16 @@ def search(limit, seed, workers=True):
             r = {"what": f"{type(ex).__name__}: {str(ex)[:140]}", "wrapper": name}
         if r is not None:
             r["input"] = {"wrapper": name, "seed": seed}
+            return r, n
+    # seed 0 is a seed like any other
+    for name, (make, items) in list(zoo(0).items())[:limit]:
+        n += 1
+        try:
+            r = check(name, make, items)
+        except Exception as ex:
+            r = {"what": f"{type(ex).__name__}: {str(ex)[:140]}", "wrapper": name}
+        if r is not None:
+            r["input"] = {"wrapper": name, "seed": 0}
             return r, n
     if workers:
         for name in ("XTransform(compose)", "XTransform(patchwise noise)", "Mix(mixup)"):
